@@ -606,7 +606,7 @@ func (d *kmDriver) mkChurpApply(st *churp.Status, n *SimNode, what string) *GenT
 	_, applied := st.Applications[n.Keys.ID.PK]
 	switch {
 	case !d.live(n):
-		intent = "km:node-not-registered-or-expired"
+		intent = "post:node-not-registered-or-expired"
 	case st.HandoffsDisabled():
 		intent = "km:handoffs-disabled"
 	case st.NextHandoff != d.epoch+1:
@@ -653,7 +653,7 @@ func (d *kmDriver) mkChurpConfirm(st *churp.Status, n *SimNode, what string) *Ge
 	app, applied := st.Applications[n.Keys.ID.PK]
 	switch {
 	case !d.live(n):
-		intent = "km:node-not-registered-or-expired"
+		intent = "post:node-not-registered-or-expired"
 	case st.HandoffsDisabled():
 		intent = "km:handoffs-disabled"
 	case st.NextHandoff != d.epoch:
@@ -786,7 +786,7 @@ func (d *kmDriver) txs() []*GenTx {
 			switch {
 			case st.NextHandoff == d.epoch+1 && !applied && mood%8 != 0 && rng.IntN(3) != 0:
 				emit(d.mkChurpApply(st, n, ""))
-			case st.NextHandoff == d.epoch && applied && !app.Reconstructed && mood%8 != 1 && rng.IntN(3) != 0:
+			case st.NextHandoff == d.epoch && applied && !app.Reconstructed && mood%8 != 1 && rng.IntN(2) == 0:
 				emit(d.mkChurpConfirm(st, n, ""))
 			}
 		}
@@ -864,12 +864,49 @@ func (g *TxGen) mkKMChurp() *GenTx {
 	case c < 5:
 		return d.mkChurpUpdate(fault("km:non-owner", "km:no-such-churp", "km:empty-update", "km:stale-serial", "km:policy-id-mismatch", "km:bad-policy-signature", "km:not-a-key-manager"))
 	case c < 8:
-		st := d.snap.Churps[rng.IntN(len(d.snap.Churps))]
-		return d.mkChurpApply(st, d.pickKMNode(), fault("km:wrong-epoch", "km:bad-rak-signature", "km:non-km-node", "km:no-such-churp", "km:not-a-key-manager"))
+		f := fault("km:wrong-epoch", "km:bad-rak-signature", "km:non-km-node", "km:no-such-churp", "km:not-a-key-manager")
+		st, n := d.pickDue(f != "", func(st *churp.Status, n *SimNode) bool {
+			_, applied := st.Applications[n.Keys.ID.PK]
+			return st.NextHandoff == d.epoch+1 && !applied && !d.issued[fmt.Sprintf("apply:%d:%s", st.ID, n.Name)]
+		})
+		return d.mkChurpApply(st, n, f)
 	default:
-		st := d.snap.Churps[rng.IntN(len(d.snap.Churps))]
-		return d.mkChurpConfirm(st, d.pickKMNode(), fault("km:wrong-epoch", "km:bad-rak-signature", "km:checksum-mismatch", "km:no-such-churp"))
+		f := fault("km:wrong-epoch", "km:bad-rak-signature", "km:checksum-mismatch", "km:no-such-churp")
+		st, n := d.pickDue(f != "", func(st *churp.Status, n *SimNode) bool {
+			app, applied := st.Applications[n.Keys.ID.PK]
+			return st.NextHandoff == d.epoch && applied && !app.Reconstructed && !d.issued[fmt.Sprintf("confirm:%d:%s", st.ID, n.Name)] &&
+				(f != "km:checksum-mismatch" || st.NextChecksum != nil)
+		})
+		return d.mkChurpConfirm(st, n, f)
 	}
+}
+
+// pickDue picks a CHURP instance and a key manager node; with prefer set, a pair for which the
+// step is due now (so that a single fault can be applied to an otherwise valid request), if any.
+func (d *kmDriver) pickDue(prefer bool, due func(*churp.Status, *SimNode) bool) (*churp.Status, *SimNode) {
+	rng := d.g.rng
+	if prefer {
+		type pair struct {
+			st *churp.Status
+			n  *SimNode
+		}
+		var cands []pair
+		for _, st := range d.snap.Churps {
+			if st.HandoffsDisabled() {
+				continue
+			}
+			for _, n := range d.g.h.Sc.KMNodes {
+				if d.live(n) && due(st, n) {
+					cands = append(cands, pair{st, n})
+				}
+			}
+		}
+		if len(cands) > 0 {
+			c := cands[rng.IntN(len(cands))]
+			return c.st, c.n
+		}
+	}
+	return d.snap.Churps[rng.IntN(len(d.snap.Churps))], d.pickKMNode()
 }
 
 // KMCommitteeSize returns the size of the committed key manager committee (development aid).
